@@ -11,19 +11,34 @@ broadcast use {nid::ax_id_eq, nid::ax_id_cmp, nid::ax_id_obeys_eq, nid::ax_id_ob
 //@ idtype Value ContainerValueId
 
 // ---- trusted environment ---------------------------------------------------------------------------
-/// core_relations::ValueRebuilder as a function on values (rb). `rebuild_slice` has a default body using
-/// `iter_mut()` (outside the Verus subset): ASSUMED to map every element through rb and report whether
-/// anything changed (bounded Kani stand-in: kani harness rebuild_slice).
-pub trait ValueRebuilder {
-    spec fn rb(&self, v: Value) -> Value;
-    fn rebuild_val(&self, val: Value) -> (r: Value)
-        ensures r == self.rb(val);
-    fn rebuild_slice(&self, vals: &mut [Value]) -> (r: bool)
+/// what a ValueRebuilder maps a value to (uninterpreted; `rebuild_val` is a pure function of the rebuilder and the value)
+pub uninterp spec fn rb<R: ?Sized>(r: &R, v: Value) -> Value;
+
+//@ impl core-relations/src/table_spec.rs trait ValueRebuilder : Send + Sync
+//@ fn rebuild_val
+//@ ret r
+//@ at sig
+        ensures r == rb(self, val)
+//@ end-fn
+//@ fn rebuild_slice
+//@ ret r
+//@ rewrite R-ITERMUT 0
+//@ at sig
         ensures
             final(vals)@.len() == old(vals)@.len(),
-            forall|i: int| 0 <= i < old(vals)@.len() ==> #[trigger] final(vals)@[i] == self.rb(old(vals)@[i]),
-            r == exists|i: int| 0 <= i < old(vals)@.len() && self.rb(#[trigger] old(vals)@[i]) != old(vals)@[i];
-}
+            forall|i: int| 0 <= i < old(vals)@.len() ==> #[trigger] final(vals)@[i] == rb(self, old(vals)@[i]),
+            r == exists|i: int| 0 <= i < old(vals)@.len() && rb(self, #[trigger] old(vals)@[i]) != old(vals)@[i],
+//@ at loop 0 spec
+            invariant
+                __j0 <= __n0,
+                __n0 == vals@.len(),
+                vals@.len() == old(vals)@.len(),
+                forall|i: int| 0 <= i < __j0 ==> #[trigger] vals@[i] == rb(self, old(vals)@[i]),
+                forall|i: int| __j0 <= i < __n0 ==> #[trigger] vals@[i] == old(vals)@[i],
+                changed == exists|i: int| 0 <= i < __j0 && rb(self, #[trigger] old(vals)@[i]) != old(vals)@[i],
+            decreases __n0 - __j0,
+//@ end-fn
+//@ end-impl
 
 //@ item src/sort/pair.rs struct PairContainer
 //@ item src/sort/vec.rs struct VecContainer
@@ -34,8 +49,8 @@ pub trait ValueRebuilder {
 //@ rewrite R-BOOLOP changed
 //@ at sig
         ensures
-            final(self).first == (if old(self).do_rebuild_first { rebuilder.rb(old(self).first) } else { old(self).first }),
-            final(self).second == (if old(self).do_rebuild_second { rebuilder.rb(old(self).second) } else { old(self).second }),
+            final(self).first == (if old(self).do_rebuild_first { rb(rebuilder, old(self).first) } else { old(self).first }),
+            final(self).second == (if old(self).do_rebuild_second { rb(rebuilder, old(self).second) } else { old(self).second }),
             final(self).do_rebuild_first == old(self).do_rebuild_first,
             final(self).do_rebuild_second == old(self).do_rebuild_second,
             // the trait's documented obligation: `false` means the container was not modified
@@ -52,8 +67,8 @@ pub trait ValueRebuilder {
             final(self).do_rebuild == old(self).do_rebuild,
             final(self).data@.len() == old(self).data@.len(),
             forall|i: int| 0 <= i < old(self).data@.len() ==> #[trigger] final(self).data@[i] ==
-                (if old(self).do_rebuild { rebuilder.rb(old(self).data@[i]) } else { old(self).data@[i] }),
-            r == (old(self).do_rebuild && exists|i: int| 0 <= i < old(self).data@.len() && rebuilder.rb(#[trigger] old(self).data@[i]) != old(self).data@[i]),
+                (if old(self).do_rebuild { rb(rebuilder, old(self).data@[i]) } else { old(self).data@[i] }),
+            r == (old(self).do_rebuild && exists|i: int| 0 <= i < old(self).data@.len() && rb(rebuilder, #[trigger] old(self).data@[i]) != old(self).data@[i]),
             // the trait's documented obligation: `false` means the container was not modified
             !r ==> final(self).data@ =~= old(self).data@,
 //@ end-fn
